@@ -1,5 +1,240 @@
-// stub: check for C01 not built yet
+mod model;
+mod run;
+mod spec;
+mod statics;
+mod trees;
+
+use spec::*;
+use vcore::proptest::prelude::*;
+use vcore::Level;
+
+const RULE: &str = "a case is (event: module of 1-3 segments, template of text/hole parts, extent none/point/range incl. empty and inverted ranges, own props over an 8-key alphabet incl. \"\" and \"é\" with frequent duplicates) x (ambient props served by Empty / a list-backed harness Ctxt / the real ThreadLocalCtxt with two entered frames) x (clock none/fixed) x (runtime filter tree) x (optional call-site filter tree) x (destination tree incl. Wrap(from_filter|from_fn prepend), nested Runtime-as-emitter) x (entry point: emit_core::emit, Runtime::emit, <Runtime as Emitter>::emit, emit::emit! with mdl/extent/props at 4 call sites, emit::emit!(evt:), emit::emit!(evt:, template)) x (generic runtime | AmbientRuntime-shaped runtime of &dyn Erased* references). Trees are recursive enums whose variants hold the real emit combinators (And/Or/Option/Box/Arc/&/dyn Erased*/AssertInternal/Wrap/Runtime) instantiated at the enum itself, depth <=4, <=14 nodes. Every case is run on the tree as generated, on the same tree with every node behind dyn Erased*, and with the other runtime flavour; then the event is emitted straight to the destination and the destination is flushed. Non-trivial = the effective filter tree and the destination tree each contain >=1 composite AND (ambient props non-empty OR a key is duplicated in the full event OR a call-site filter is in effect).";
+
+const ASSUMPTIONS: [&str; 7] = [
+    "the oracle is a reference evaluator over the case data (model.rs) written from the property text: model event = own props then ambient props, own extent else the clock's reading; effective filter = call-site filter when given else the runtime's; And=both, Or=either, Option None=pass everything / deliver nothing, Wrap(from_filter g)=inner iff g accepts the event at that position, nested Runtime used as an emitter applies its own clock, ctxt, filter in that order (Runtime::emit rustdoc), every other wrapper is transparent",
+    "how often and in which order filter leaves are evaluated (short-circuiting, whether the runtime's filter is consulted at all when a call-site filter is given) is don't-care: recorded, never asserted; what IS asserted is that every evaluated leaf saw the model event of its position and answered by its predicate's logical value on it",
+    "ambient properties served by ThreadLocalCtxt come from a hash map: their relative order is unspecified and compared as a multiset; the pushed frames carry distinct keys (de-duplicated by the harness first)",
+    "the order of the properties captured by one macro call site is C02's concern: the call sites used here capture `a` then `b`, for which source order and sorted order coincide; captured properties precede the `props:` base properties (emit_props_precedence)",
+    "the recursive enums add `evt.to_event().erase()` (props type erasure, as filter::FromFn/emitter::FromFn do) at every enum node to keep the number of generic instantiations finite; the statically typed generator `static-shapes` has no such layer",
+    "values are compared by their Display text (type fidelity is C19's concern); rendering = text verbatim, a hole is the first value of its label or `{label}`",
+    "blocking_flush: timeout values are not asserted, only the boolean result and that each reachable recording leaf is flushed exactly once",
+];
+
+fn key_s() -> impl Strategy<Value = u8> {
+    prop_oneof![3 => 0u8..3, 2 => 0u8..8]
+}
+
+fn val_s() -> impl Strategy<Value = Val> {
+    prop_oneof![
+        3 => (-1i64..=2).prop_map(Val::I),
+        2 => (0u8..5).prop_map(Val::S),
+        1 => any::<bool>().prop_map(Val::B),
+    ]
+}
+
+fn ts_s() -> impl Strategy<Value = Ts> {
+    (
+        0u32..4,
+        prop_oneof![
+            3 => Just(0u32),
+            1 => Just(1u32),
+            1 => Just(999_999_999u32),
+            1 => 0u32..1_000_000_000,
+        ],
+    )
+        .prop_map(|(s, n)| Ts(s, n))
+}
+
+fn ext_s() -> impl Strategy<Value = ExtSpec> {
+    prop_oneof![
+        4 => Just(ExtSpec::None),
+        3 => ts_s().prop_map(ExtSpec::Point),
+        3 => (ts_s(), ts_s()).prop_map(|(a, b)| ExtSpec::Range(a, b)),
+        1 => ts_s().prop_map(|a| ExtSpec::Range(a, a)),
+    ]
+}
+
+fn props_s(max: usize) -> impl Strategy<Value = Vec<(u8, Val)>> {
+    prop::collection::vec((key_s(), val_s()), 0..=max)
+}
+
+fn pred_s() -> impl Strategy<Value = Pred> {
+    prop_oneof![
+        1 => any::<bool>().prop_map(Pred::Const),
+        2 => (0u8..4).prop_map(Pred::MdlFirst),
+        1 => (1u8..=3).prop_map(Pred::MdlLen),
+        5 => key_s().prop_map(Pred::HasKey),
+        4 => (key_s(), val_s()).prop_map(|(k, v)| Pred::FirstValIs(k, v)),
+        2 => prop_oneof![Just(ExtShape::None), Just(ExtShape::Point), Just(ExtShape::Range)].prop_map(Pred::ExtentIs),
+        2 => ts_s().prop_map(Pred::TsBefore),
+    ]
+}
+
+fn fs_s(depth: u32, size: u32) -> impl Strategy<Value = FS> {
+    let leaf = prop_oneof![
+        8 => pred_s().prop_map(|pred| FS::Leaf { id: 0, pred }),
+        3 => pred_s().prop_map(|pred| FS::FromFn { id: 0, pred }),
+        1 => (0u8..3).prop_map(FS::FnPtr),
+        1 => Just(FS::Empty),
+        1 => Just(FS::Always),
+        1 => Just(FS::Opt(None)),
+    ];
+    leaf.prop_recursive(depth, size, 2, |inner| {
+        let b = |s: BoxedStrategy<FS>| s.prop_map(Box::new);
+        let i = inner.boxed();
+        prop_oneof![
+            4 => (b(i.clone()), b(i.clone())).prop_map(|(x, y)| FS::And(x, y)),
+            4 => (b(i.clone()), b(i.clone())).prop_map(|(x, y)| FS::Or(x, y)),
+            1 => b(i.clone()).prop_map(|x| FS::Opt(Some(x))),
+            1 => b(i.clone()).prop_map(FS::Boxed),
+            1 => b(i.clone()).prop_map(FS::Arc),
+            1 => b(i.clone()).prop_map(FS::Ref),
+            2 => b(i.clone()).prop_map(FS::Erased),
+            1 => b(i.clone()).prop_map(FS::ErasedPlain),
+            1 => b(i).prop_map(FS::AssertInternal),
+        ]
+    })
+}
+
+fn ws_s() -> impl Strategy<Value = WS> {
+    let leaf = prop_oneof![
+        3 => fs_s(2, 4).prop_map(WS::Filter),
+        2 => (key_s(), val_s()).prop_map(|(k, v)| WS::Prepend(k, v)),
+    ];
+    leaf.prop_recursive(2, 3, 1, |inner| {
+        let i = inner.prop_map(Box::new).boxed();
+        prop_oneof![
+            1 => i.clone().prop_map(WS::Ref),
+            2 => i.clone().prop_map(WS::Erased),
+            1 => i.prop_map(WS::ErasedPlain),
+        ]
+    })
+}
+
+fn es_s() -> impl Strategy<Value = ES> {
+    let leaf = prop_oneof![
+        8 => prop::bool::weighted(0.8).prop_map(|flush| ES::Leaf { id: 0, flush }),
+        2 => Just(ES::FromFn { id: 0 }),
+        1 => (0u8..2).prop_map(ES::FnPtr),
+        1 => Just(ES::Empty),
+        1 => Just(ES::Opt(None)),
+    ];
+    leaf.prop_recursive(4, 12, 2, |inner| {
+        let i = inner.prop_map(Box::new).boxed();
+        prop_oneof![
+            6 => (i.clone(), i.clone()).prop_map(|(x, y)| ES::And(x, y)),
+            1 => i.clone().prop_map(|x| ES::Opt(Some(x))),
+            1 => i.clone().prop_map(ES::Boxed),
+            1 => i.clone().prop_map(ES::Arc),
+            1 => i.clone().prop_map(ES::Ref),
+            2 => i.clone().prop_map(ES::Erased),
+            1 => i.clone().prop_map(ES::ErasedPlain),
+            1 => i.clone().prop_map(ES::AssertInternal),
+            4 => (i.clone(), ws_s()).prop_map(|(x, w)| ES::Wrap(x, w)),
+            2 => (i, fs_s(2, 4), props_s(3), prop::option::weighted(0.6, ts_s()))
+                .prop_map(|(emitter, filter, ctxt, clock)| ES::Rt { emitter, filter, ctxt, clock }),
+        ]
+    })
+}
+
+fn ev_s() -> impl Strategy<Value = EvSpec> {
+    (
+        prop::collection::vec(0u8..4, 1..=3),
+        prop::collection::vec(
+            prop_oneof![(0u8..6).prop_map(TplPart::Text), key_s().prop_map(TplPart::Hole)],
+            0..=4,
+        ),
+        ext_s(),
+        props_s(6),
+    )
+        .prop_map(|(mdl, tpl, extent, props)| EvSpec { mdl, tpl, extent, props })
+}
+
+fn entry_s() -> impl Strategy<Value = Entry> {
+    prop_oneof![
+        2 => Just(Entry::Core),
+        2 => Just(Entry::RtEmit),
+        1 => Just(Entry::RtAsEmitter),
+        4 => (0u8..4).prop_map(Entry::MacroEmit),
+        1 => Just(Entry::MacroEvt),
+        1 => Just(Entry::MacroEvtTpl),
+    ]
+}
+
+fn case_s() -> impl Strategy<Value = Case> {
+    (
+        (ev_s(), props_s(6), prop_oneof![1 => Just(CtxtKind::Empty), 4 => Just(CtxtKind::List), 3 => Just(CtxtKind::ThreadLocal)]),
+        prop::option::weighted(0.6, ts_s()),
+        fs_s(4, 12),
+        prop::option::weighted(0.6, fs_s(3, 8)),
+        es_s(),
+        entry_s(),
+        (any::<bool>(), -1i64..=2, 0u8..5, any::<bool>()),
+    )
+        .prop_map(|((evt, ambient, ctxt), clock, filter, when, dest, entry, (erased_rt, macro_a, macro_b, by_value))| Case {
+            evt,
+            ambient,
+            ctxt,
+            clock,
+            filter,
+            when,
+            dest,
+            entry,
+            erased_rt,
+            macro_a,
+            macro_b,
+            by_value,
+        })
+}
+
+fn static_case_s() -> impl Strategy<Value = statics::StaticCase> {
+    (
+        (0u8..statics::SHAPES, ev_s(), props_s(6), prop_oneof![1 => Just(CtxtKind::Empty), 4 => Just(CtxtKind::List), 3 => Just(CtxtKind::ThreadLocal)]),
+        prop::option::weighted(0.6, ts_s()),
+        [pred_s(), pred_s(), pred_s(), pred_s()],
+        [prop::bool::weighted(0.8), prop::bool::weighted(0.8), prop::bool::weighted(0.8)],
+        prop::option::weighted(0.6, pred_s()),
+        entry_s(),
+        (-1i64..=2, 0u8..5, any::<bool>()),
+        ((key_s(), val_s()), props_s(3), prop::option::weighted(0.6, ts_s())),
+    )
+        .prop_map(
+            |((shape, evt, ambient, ctxt), clock, preds, flushes, when, entry, (macro_a, macro_b, by_value), (prepend, nested_ctxt, nested_clock))| {
+                statics::StaticCase {
+                    shape,
+                    evt,
+                    ambient,
+                    ctxt,
+                    clock,
+                    preds,
+                    flushes,
+                    when,
+                    entry,
+                    macro_a,
+                    macro_b,
+                    by_value,
+                    prepend,
+                    nested_ctxt,
+                    nested_clock,
+                }
+            },
+        )
+}
+
 fn main() {
-    eprintln!("C01: check not built yet");
-    std::process::exit(2);
+    vcore::run("C01", Level::Exploration, RULE, &ASSUMPTIONS, |s| {
+        let n = s.n(200_000, 2_000_000);
+        // DESIGN: accepted >=15 %, rejected >=15 %, flips >=3 %, own extent with clock >=10 %,
+        // erased >=30 %, nested runtime >=3 % — required at a tenth of those frequencies
+        s.require("accepted", n * 15 / 1000);
+        s.require("rejected", n * 15 / 1000);
+        s.require("verdict-flips-without-ambient", n * 3 / 1000);
+        s.require("own-extent-present-with-clock", n * 10 / 1000);
+        s.require("erased", n * 30 / 1000);
+        s.require("nested-runtime", n * 3 / 1000);
+        s.require("call-site-filter", n * 3 / 1000);
+        s.require("ctxt:thread-local", n * 3 / 1000);
+        s.gen("trees", n, case_s, run::check);
+        s.gen("static-shapes", s.n(60_000, 600_000), static_case_s, statics::check_static);
+    })
 }
